@@ -45,18 +45,25 @@ Qed.
 Lemma sort_names_in l y : In y (sort_names l) <-> In y l.
 Proof. induction l as [|x l IH]; cbn [sort_names fold_right]; [tauto|]. fold (sort_names l). rewrite insert_name_in, IH. cbn [In]. intuition. Qed.
 
+Lemma insert_by_in le x l y : In y (insert_by le x l) <-> y = x \/ In y l.
+Proof.
+  induction l as [|z l IH]; cbn [insert_by]; [cbn; intuition|]. destruct (le x z); cbn [In]; [intuition|]. rewrite IH. intuition.
+Qed.
+Lemma sort_by_key_in sfx l y : In y (sort_by_key sfx l) <-> In y l.
+Proof. induction l as [|x l IH]; cbn [sort_by_key fold_right]; [tauto|]. fold (sort_by_key sfx l). rewrite insert_by_in, IH. cbn [In]. intuition. Qed.
+
 Theorem C14_listing_prefix :
   forall off sp fixed f flt sel l n, existing_rot off sp fixed f flt sel = Some l -> In n l ->
     is_prefix fixed n = true /\ is_reg_file f n = true.
 Proof.
   intros off sp fixed f flt sel l n H I.
-  assert (R : forall m, In m (related_files f fixed) -> is_prefix fixed m = true /\ is_reg_file f m = true).
-  { intros m Hm. unfold related_files in Hm. rewrite <- in_rev in Hm. rewrite sort_names_in in Hm. apply filter_In in Hm.
+  assert (R : forall m, In m (related_files f (fsfx sp) fixed) -> is_prefix fixed m = true /\ is_reg_file f m = true).
+  { intros m Hm. unfold related_files in Hm. rewrite <- in_rev in Hm. rewrite sort_by_key_in in Hm. apply filter_In in Hm.
     destruct Hm as [_ Hm]. apply andb_prop in Hm. tauto. }
-  assert (F : forall flt' sfx r m, filter_files off (fsfx sp) fixed (related_files f fixed) flt' sfx = Some r -> In m r -> In m (related_files f fixed)).
+  assert (F : forall flt' sfx r m, filter_files off (fsfx sp) fixed (related_files f (fsfx sp) fixed) flt' sfx = Some r -> In m r -> In m (related_files f (fsfx sp) fixed)).
   { intros flt' sfx r m Hr Hm. unfold filter_files in Hr. eapply filter_opt_incl; eauto. }
   unfold existing_rot in H.
-  set (rel := related_files f fixed) in *.
+  set (rel := related_files f (fsfx sp) fixed) in *.
   destruct (if sel_plain sel then filter_files off (fsfx sp) fixed rel flt (fsfx sp) else Some []) as [r1|] eqn:E1; [|discriminate].
   destruct (if sel_gz sel then filter_files off (fsfx sp) fixed rel flt (Some gz_sfx) else Some []) as [r2|] eqn:E2; [|discriminate].
   destruct (if sel_rcur sel then filter_files off (fsfx sp) fixed rel (IFEq cur_infix) (fsfx sp) else Some []) as [r3|] eqn:E3; [|discriminate].
